@@ -1070,6 +1070,100 @@ def _def_node(p, fac: Func, g: Func) -> int:
     return ids[0]
 
 
+# ---------------------------------------------------------------------------
+# R9 bulk set consumes its iterable argument in a single pass
+# ---------------------------------------------------------------------------
+
+_R9_MATERIALISERS = ('list', 'tuple', 'dict', 'sorted', 'OrderedDict')
+
+
+def r9_single_pass(run):
+    """`set_headers(headers)` documents an *iterable* of pairs.  A one-shot
+    iterable (generator, zip, map, dict-items iterator) yields nothing on a
+    second pass, so an implementation that walks the argument twice (a
+    validation pass, then the store pass) silently sets nothing.  Decided: no
+    CFG path iterates the (un-materialised) argument more than once.
+    W: resp.set_headers((k, v) for ...) returns normally and sets no header."""
+    p = run.project
+    f = p.func('falcon.response.Response.set_headers')
+    cfg = cfg_of(f, p)
+    run.use_cfg(cfg)
+    param = f.params()[1]
+    # aliases of the argument: the parameter, and names bound to it / to its
+    # items() view / to a call of the bound `items` attribute
+    aliases = {param}
+    getattr_names = set()
+    changed = True
+    while changed:
+        changed = False
+        for n in walk_self(f.node):
+            if not (isinstance(n, ast.Assign) and len(n.targets) == 1 and isinstance(n.targets[0], ast.Name)):
+                continue
+            t = n.targets[0].id
+            v = n.value
+            src = None
+            if isinstance(v, ast.Name) and v.id in aliases:
+                src = 'alias'
+            elif isinstance(v, ast.Call) and isinstance(v.func, ast.Attribute) and v.func.attr in ('items', '__iter__') \
+                    and isinstance(v.func.value, ast.Name) and v.func.value.id in aliases:
+                src = 'alias'
+            elif isinstance(v, ast.Call) and isinstance(v.func, ast.Name) and v.func.id == 'getattr' and v.args \
+                    and isinstance(v.args[0], ast.Name) and v.args[0].id in aliases:
+                if t not in getattr_names:
+                    getattr_names.add(t)
+                    changed = True
+                continue
+            elif isinstance(v, ast.Call) and isinstance(v.func, ast.Name) and v.func.id in getattr_names:
+                src = 'alias'
+            elif isinstance(v, ast.Call) and isinstance(v.func, ast.Name) and v.func.id == 'iter' and v.args \
+                    and isinstance(v.args[0], ast.Name) and v.args[0].id in aliases:
+                src = 'alias'
+            if src and t not in aliases:
+                aliases.add(t)
+                changed = True
+
+    def consumes(node) -> bool:
+        if node.kind == 'iter':
+            it = node.stmt.iter
+            return isinstance(it, ast.Name) and it.id in aliases
+        for x in node.walk():
+            if isinstance(x, (ast.ListComp, ast.SetComp, ast.DictComp, ast.GeneratorExp)):
+                for g in x.generators:
+                    if isinstance(g.iter, ast.Name) and g.iter.id in aliases:
+                        return True
+            if isinstance(x, ast.Call) and isinstance(x.func, ast.Name) and x.func.id in _R9_MATERIALISERS + ('set', 'frozenset', 'any', 'all', 'sum', 'max', 'min', 'len') \
+                    and x.args and isinstance(x.args[0], ast.Name) and x.args[0].id in aliases and x.func.id != 'len':
+                return True
+        return False
+
+    def rebinds_materialised(node) -> bool:
+        """`headers = list(headers)`: from here on the alias is a real container"""
+        a = node.ast
+        return node.kind == 'stmt' and isinstance(a, ast.Assign) and len(a.targets) == 1 and isinstance(a.targets[0], ast.Name) \
+            and a.targets[0].id in aliases and isinstance(a.value, ast.Call) and isinstance(a.value.func, ast.Name) \
+            and a.value.func.id in _R9_MATERIALISERS
+
+    sites = [n for n in cfg.live_nodes() if consumes(n) and not rebinds_materialised(n)]
+    mats = [n.id for n in cfg.live_nodes() if rebinds_materialised(n)]
+    if not sites:
+        raise AnchorError('set_headers: no iteration over the headers argument found')
+    bad = None
+    for a in sites:
+        succ = [y for (y, l) in cfg.succ[a.id] if l in ('done', '', 'T', 'F')]
+        # a loop header reaches itself through its own body: start after the loop
+        starts = [y for (y, l) in cfg.succ[a.id] if l == 'done'] if a.kind == 'iter' else succ
+        for b in sites:
+            if b.id == a.id:
+                continue
+            if flow.find_path(cfg, starts, [b.id], avoid_nodes=mats, edge_filter=flow.no_exc) is not None:
+                bad = (a, b)
+    run.check(bad is None, 'set_headers walks its iterable argument at most once on every path (one-shot iterables are legal arguments)', f,
+              (bad[1].stmt.iter if bad and bad[1].kind == 'iter' else (bad[1].ast if bad else 'single pass')),
+              where=f.loc(), witness=['first pass: %s:%s %s' % (f.file, bad[0].lineno, bad[0].text()),
+                                      'second pass: %s:%s %s' % (f.file, bad[1].lineno, bad[1].text())] if bad else None,
+              runtime_witness='resp.set_headers((k, v) for k, v in pairs) returns normally and sets nothing')
+
+
 def check(run):
     run.assume('receivers: `self` inside Response classes, parameters annotated Response, and the conventional name `resp` denote a response (A.6)')
     run.assume('http.cookies.Morsel semantics are library behaviour: keys are the RFC 6265 attribute names, OutputString() renders one cookie')
@@ -1080,3 +1174,11 @@ def check(run):
     run.rule('R4', r4_cookie_attributes, 'cookie parameter -> attribute wiring and presence guards', floor=28)
     run.rule('R5', r5_uri_helpers, 'URI-bearing helpers are percent-encoded', floor=9)
     run.rule('R6', r6_property_factory, 'header property factory: one key, None deletes, transform applied', floor=16)
+    run.rule('R9', r9_single_pass, 'set_headers consumes its iterable argument in a single pass', floor=1)
+    # the URI-bearing helpers (Location, Content-Location, Link) go through the
+    # "check escaped" encoder: its already-escaped heuristic and escape shape
+    # are necessary for "decoding returns the original" (shared with C10)
+    from . import c10 as _c10
+
+    run.rule('R7', _c10._safe(_c10.r5_check_escaped), 'check-escaped encoder behind the URI-bearing helpers (shared with C10 R5)', floor=8)
+    run.rule('R8', _c10._safe(_c10.r2_escape_shape), 'escape shape and decoder table behind the URI-bearing helpers (shared with C10 R2)', floor=10)
